@@ -33,6 +33,7 @@ def _count(maxn):
 
 def _call(ctx, A, q0, q1, sig, nontrivial=True):
     A0, q00, q10 = oracles.snapshot_arrays(A, q0, q1)
+    q00, q10 = np.asarray(q00), np.asarray(q10)
     ctx.case(sig, nontrivial=nontrivial, sample={'A': A0, 'q0': q00, 'q1': q10})
     with monitor.write_protected(A, q0, q1):
         res = ptn.qr(A, q0, q1)
@@ -100,8 +101,9 @@ def random_case(ctx, idx, rng):
         A = gen.block_matrix(rng, q0, q1, kind)
     scale = float(rng.choice([1, 1e-30, 1e30, 1e-3]))
     A = A * scale
+    A, mem = gen.memory_layout(rng, A)
     shared = len(np.intersect1d(q0, q1))
-    sig = (shape_kind, lay, kind, _sortclass(q0, q1), 'disjoint' if shared == 0 else 'shared', f'scale{scale:g}')
+    sig = (shape_kind, lay, kind, _sortclass(np.asarray(q0), np.asarray(q1)), 'disjoint' if shared == 0 else 'shared', f'scale{scale:g}', mem, 'q-lists' if isinstance(q0, list) else 'q-arrays')
     _call(ctx, A, q0, q1, sig, nontrivial=(kind != 'zero' and shared > 0))
 
 
